@@ -588,8 +588,33 @@ class StubsBase:
             return "<%-format>"
         return NotImplemented
 
+    U_ROUND = Fraction(1, 2 ** 53)
+
+    def mu_round(self, ctx, exact):
+        """Model M_u (DESIGN 3.3): a rounded binary64 operation returns exact*(1+d), |d| <= 2^-53
+        (no overflow/underflow).  Over-approximates round-to-nearest-even."""
+        if not is_sym(exact):
+            return exact
+        r = ctx.fresh("rn")
+        ax = z3.If(exact >= 0, exact, -exact)
+        u = z3.Q(1, 2 ** 53)
+        ctx.assume(z3.And(r - exact <= u * ax, exact - r <= u * ax), why="M_u: rounded operation")
+        ctx.note("model-M_u: each float operation has relative error <= 2^-53; integer-valued operands below 2^53 add exactly")
+        return r
+
     def num_binop(self, op, a, b, ctx):
         both_int = V.is_intlike(a) and V.is_intlike(b)
+        if getattr(ctx, "mu", False) and not both_int and isinstance(op, (ast.Add, ast.Sub, ast.Mult, ast.Div)):
+            if isinstance(op, ast.Add):
+                return self.mu_round(ctx, V.R(V.Z(V.add(a, b))) if is_sym(V.add(a, b)) else V.add(a, b))
+            if isinstance(op, ast.Sub):
+                return self.mu_round(ctx, V.R(V.Z(V.sub(a, b))) if is_sym(V.sub(a, b)) else V.sub(a, b))
+            if isinstance(op, ast.Mult):
+                return self.mu_round(ctx, V.R(V.Z(V.mul(a, b))) if is_sym(V.mul(a, b)) else V.mul(a, b))
+            if ctx.branch(V.eq(b, 0), "division by zero"):
+                raise PyExc("ZeroDivisionError", "float division by zero")
+            q = V.div(ctx, a, b)
+            return self.mu_round(ctx, V.R(V.Z(q)) if is_sym(q) else q)
         if isinstance(op, ast.Add):
             return V.simp(V.add(a, b))
         if isinstance(op, ast.Sub):
